@@ -277,7 +277,7 @@ func baseBound() time.Duration {
 	return time.Duration(vkit.Pick(3, 6)) * time.Second
 }
 
-func runCase(c Case) (*failure, *obs) {
+func runCase(c Case, boundScale int) (*failure, *obs) {
 	o := &obs{}
 	pAB, pBA := payload(c.LenAB, c.SeedAB), payload(c.LenBA, c.SeedBA)
 	var r *rig
@@ -318,9 +318,35 @@ func runCase(c Case) (*failure, *obs) {
 	if earlyB {
 		upB = c.Ending.K
 	}
+	kind := c.Ending.Kind
 	attach := c.Attach
 	if c.Mini && attach == "before-start" {
 		attach = "after-start" // the server starts the bridge when the source's TunnelOpen arrives
+	}
+	// Injected transport errors are armed before the bridge can touch the connection concerned: a
+	// Read that is already blocked, or bytes that already went through, would never see them.
+	// Offsets count tunnel bytes only; on the mini-server the handshake replies and the
+	// TunnelOpenAck precede them on the wire (the server reads nothing from a tunnel connection
+	// before the bridge does: packets are pushed to the dispatcher).
+	switch kind {
+	case "fail-read-srvA":
+		aS.FailReadAfter.Store(int64(c.Ending.K))
+	case "fail-read-srvB":
+		bS.FailReadAfter.Store(int64(c.Ending.K))
+	case "fail-write-srvA":
+		if !c.Mini {
+			aS.FailWriteAfter.Store(int64(c.Ending.K))
+		}
+	case "fail-write-srvB":
+		if !c.Mini {
+			bS.FailWriteAfter.Store(int64(c.Ending.K))
+		}
+	}
+	// mini-server + failing writes towards B: nothing may flow towards B before the offset is known,
+	// i.e. before B consumed its ack; A's writer waits for that
+	delayA := c.Mini && kind == "fail-write-srvB"
+	if delayA && attach == "after-first-write" {
+		attach = "after-start"
 	}
 	if attach == "before-start" {
 		if f := r.attach(); f != nil {
@@ -330,24 +356,29 @@ func runCase(c Case) (*failure, *obs) {
 	if f := r.start(); f != nil {
 		return f, o
 	}
-	// injected transport errors count tunnel bytes only (the mini-server wrote handshake replies before)
-	// (what the client consumed so far is exactly what the server wrote before the tunnel bytes:
-	// handshake replies and the TunnelOpenAck; the bridge may already be writing behind them)
+	// what a client consumed so far is exactly what the server wrote ahead of the tunnel bytes
 	baseA, baseB := aN.BytesRead(), bN.BytesRead()
-	switch c.Ending.Kind {
-	case "fail-read-srvA":
-		aS.FailReadAfter.Store(int64(c.Ending.K))
-	case "fail-read-srvB":
-		bS.FailReadAfter.Store(int64(c.Ending.K))
-	case "fail-write-srvA":
-		aS.FailWriteAfter.Store(baseA + int64(c.Ending.K))
+	if c.Mini && kind == "fail-write-srvA" {
+		aS.FailWriteAfter.Store(baseA + int64(c.Ending.K)) // bytes towards A only exist once B is attached and writing
 	}
 	launched = true
+	aWriter := false
+	startAWriter := func() {
+		aWriter = true
+		go A.writer(c.WritesAB, upA, c.Pace, earlyA)
+	}
+	defer func() {
+		if !aWriter {
+			close(A.writeDone)
+		}
+	}()
 	go A.reader()
-	go A.writer(c.WritesAB, upA, c.Pace, earlyA)
+	if !delayA {
+		startAWriter()
+	}
 	startB := func() {
 		baseB = bN.BytesRead()
-		if c.Ending.Kind == "fail-write-srvB" {
+		if c.Mini && kind == "fail-write-srvB" {
 			bS.FailWriteAfter.Store(baseB + int64(c.Ending.K))
 		}
 		go B.reader()
@@ -370,14 +401,16 @@ func runCase(c Case) (*failure, *obs) {
 	if c.Mini {
 		startB() // B's TunnelOpenAck has to be consumed as a packet before raw bytes flow
 	}
+	if delayA {
+		startAWriter()
+	}
 	if af != nil {
 		return af, o
 	}
 	startDone := r.ended
 
 	expT := c.expectedTransfer()
-	bound := baseBound() + 4*expT
-	kind := c.Ending.Kind
+	bound := time.Duration(boundScale) * (baseBound() + 4*expT)
 	fill := func() {
 		o.maxReadA, o.maxReadB = aS.maxRead.Load(), bS.maxRead.Load()
 		o.readsA, o.readsB = aS.reads.Load(), bS.reads.Load()
@@ -655,18 +688,35 @@ func check(t vkit.TB, c Case) {
 	}
 	notePending(c)
 	t0 := time.Now()
-	f, o := runCase(c)
+	f, o := runCase(c, 1)
 	if d := time.Since(t0); d > 2*time.Second+2*c.expectedTransfer() && os.Getenv("C02_DEBUG") != "" {
 		b, _ := json.Marshal(c)
 		fmt.Fprintf(os.Stderr, "C02_DEBUG slow case %v failure=%v inconclusive=%v: %s\n", d, f, o.inconclusive, b)
 	}
 	if f != nil && f.timing && firstViolation.IsZero() {
 		// bounded-time expectations are re-run once before they are reported
+		// (with three times the bound: a machine that starves the process must not look like a hang)
 		vkit.Class("timing-rerun")
-		f, o = runCase(c)
+		first := f
+		f, o = runCase(c, 3)
 		if f == nil {
 			vkit.Skipped(1)
+			b, _ := json.Marshal(summarize(c))
+			vkit.Extra("last_timing_rerun_that_passed", first.key+": "+first.detail+" case="+string(b))
 		}
+	}
+	if c.Mini {
+		sessionRuns.Add(1)
+	}
+	if f != nil && f.key == setupKey {
+		// the tunnel could not be brought up (slow machine, or the handshake / TunnelOpen path is
+		// broken): C02 speaks about attached tunnels only. Counted; TestZZSummary makes the run
+		// inconclusive if this is the rule rather than the exception.
+		sessionSetupFailures.Add(1)
+		vkit.Skipped(1)
+		vkit.Class("inconclusive:session-setup-failed")
+		vkit.Extra("last_session_setup_failure", f.detail)
+		return
 	}
 	if f != nil {
 		if firstViolation.IsZero() && !vkit.IsKnown(f.key) {
@@ -879,7 +929,7 @@ func genEnding(t *rapid.T, c Case) Ending {
 
 // TestPipe: no limit or a limit far above the traffic — many cases, large payloads.
 func TestPipe(t *testing.T) {
-	property(t, 2400, 40000, func(t *rapid.T) {
+	property(t, 4000, 20000, func(t *rapid.T) {
 		check(t, genCase(t, []int64{0, 0, 0, 10 * 1024 * 1024}))
 	})
 }
@@ -887,7 +937,7 @@ func TestPipe(t *testing.T) {
 // TestPipeLimited: limits that actually pace (64 KiB/s) and limits whose burst is below the
 // 32 KiB copy buffer (12 KiB/s, 4 KiB/s). Cases take real time; sizes are budgeted accordingly.
 func TestPipeLimited(t *testing.T) {
-	property(t, 400, 6000, func(t *rapid.T) {
+	property(t, 560, 3000, func(t *rapid.T) {
 		check(t, genCase(t, []int64{64 * 1024, 12 * 1024, 4096, 4096}))
 	})
 }
@@ -928,7 +978,7 @@ func TestLimiterBurstFamily(t *testing.T) {
 // runBridgeLifecycle). "The server forgets the tunnel" = GetTunnelBridgeByMappingID finds nothing
 // and the routing table has no waiting record for the tunnel id.
 func TestSession(t *testing.T) {
-	property(t, 480, 8000, func(t *rapid.T) {
+	property(t, 640, 4000, func(t *rapid.T) {
 		c := genCase(t, []int64{0, 0, 0, 10 * 1024 * 1024, 64 * 1024, 4096})
 		c.Mini = true
 		c.Stream = true
@@ -939,7 +989,7 @@ func TestSession(t *testing.T) {
 // TestCloseRace (E3): Bridge.Close() from 1..3 goroutines released by a spin flag while both copy
 // loops are moving small payloads; the prefix / closure / counter oracle of runCase applies.
 func TestCloseRace(t *testing.T) {
-	property(t, 800, 16000, func(t *rapid.T) {
+	property(t, 1200, 8000, func(t *rapid.T) {
 		c := Case{
 			LenAB: rapid.IntRange(0, 70000).Draw(t, "lenAB"), LenBA: rapid.IntRange(0, 70000).Draw(t, "lenBA"),
 			SeedAB: uint64(rapid.IntRange(0, 65535).Draw(t, "seedAB")), SeedBA: uint64(rapid.IntRange(0, 65535).Draw(t, "seedBA")),
@@ -957,8 +1007,14 @@ func TestCloseRace(t *testing.T) {
 	})
 }
 
-// TestZZLatency records the observed close latencies (evidence only).
-func TestZZLatency(t *testing.T) {
+var sessionRuns, sessionSetupFailures atomic.Int64
+
+// TestZZSummary records the observed close latencies and refuses to call the run conclusive when
+// the session rig mostly failed to bring tunnels up.
+func TestZZSummary(t *testing.T) {
+	if r, f := sessionRuns.Load(), sessionSetupFailures.Load(); r >= 10 && f*5 > r {
+		t.Fatalf("inconclusive: %d of %d mini-server cases could not establish the tunnel", f, r)
+	}
 	latMu.Lock()
 	defer latMu.Unlock()
 	if len(latencies) == 0 {
